@@ -137,19 +137,18 @@ def casePositions : Cases → List Nat
   | .cons p _ _ _ r => p :: casePositions r
 
 /-- the reachability hypothesis of `C11_case` is about the `switch` statement: in the reference semantics every case of a
-reached `switch` can be entered directly -/
-theorem switch_reaches_every_case (sp : Nat) (d : Kids) : ∀ (cs : Cases) (cp : Nat), cp ∈ casePositions cs →
-    (Stmt.switchS sp d cs).reach cp = true
+reached `switch` whose discriminant can complete normally can be entered directly -/
+theorem cases_reach_every_case : ∀ (cs : Cases) (cp : Nat), cp ∈ casePositions cs → cs.reach cp = true
   | .nil, cp, h => by simp [casePositions] at h
   | .cons p dflt t b r, cp, h => by
     simp only [casePositions, List.mem_cons] at h
     rcases h with h | h
-    · simp [Stmt.reach, Cases.reach, h]
-    · have := switch_reaches_every_case sp d r cp h
-      simp only [Stmt.reach, Bool.or_eq_true, beq_iff_eq] at this
-      rcases this with h' | h'
-      · simp [Stmt.reach, h']
-      · simp [Stmt.reach, Cases.reach, h']
+    · simp [Cases.reach, h]
+    · simp [Cases.reach, cases_reach_every_case r cp h]
+
+theorem switch_reaches_every_case (sp : Nat) (d : Kids) (hd : d.compl.n = true) (cs : Cases) (cp : Nat)
+    (h : cp ∈ casePositions cs) : (Stmt.switchS sp d cs).reach cp = true := by
+  simp [Stmt.reach, hd, cases_reach_every_case cs cp h]
 
 /-- …in terms of the rule: a non-empty case without fall-through comment that can fall through is reported -/
 theorem C11_case_reported (prog : Program) (hf : itemsInF prog.items = true) (hnd : (itemsPositions prog.items).Nodup)
